@@ -183,7 +183,7 @@ class Job:
                  entry='harness', unwind=8, kind='proof', bound=None, canaries=(), checks=(),
                  extra_src=(), timeout=300, mem_gb=8, rfp=False, replay=None, function_label=None,
                  loop_contracts=False, solver=(), arbiter=None, include_tus=None, loops=None, unwindset=(), nondet_static=False, object_bits=10, assumptions=(),
-                 no_default=()):
+                 no_default=(), enforce_rec=False):
         self.__dict__.update(locals())
         del self.__dict__['self']
 
@@ -261,7 +261,8 @@ def _run_job(ws, job, r, extra_defines, want_trace):
         cmd += ['--nondet-static']
     cmd += ['--no-malloc-may-fail', '--dfcc', job.entry]   # OOM paths are outside every property (DESIGN 2.2)
     if job.enforce:
-        cmd += ['--enforce-contract', mangle(job.enforce)]
+        # recursive functions: recursive calls are assumed to satisfy the contract being enforced
+        cmd += ['--enforce-contract-rec' if job.enforce_rec else '--enforce-contract', mangle(job.enforce)]
     for g in job.replace:
         cmd += ['--replace-call-with-contract', mangle(g)]
     if job.loops:
